@@ -391,6 +391,8 @@ class Type3Tag(nfc.tag.Tag):
         if version and version >> 4 != 1:
             log.warning("Type 3 Tag NDEF mapping major version must be 1")
             return False
+        if version is None:
+            version = 0x10  # the latest known mapping version
 
         try:
             self.read_from_ndef_service(0)
